@@ -1024,6 +1024,8 @@ def main(tier):
     rule_H(ck, units)
     rule_I(ck, units)
     rule_J(ck, units)
+    import c06
+    c06.rule_chebyshev_bounds(ck, units, which=('sib',))    # the distributed spectral-radius estimate scales like the serial one (shared with C06 / C08)
     import c12
     c12.rule_E(ck, units, floor=3)   # row sums cover the ghost columns (spectral radius, spai0; shared with C12)
     ck.assumptions += ['MPI_Allreduce / MPI_Allgather deliver the same result on all ranks', 'configuration parameters (prm.*, scalar arguments such as power_iters) are equal on all ranks',
